@@ -43,6 +43,11 @@
    owed for ever).  Under one connection per peer at a time nothing is lost
    (lost_run_nil_single_connection).
 
+   The hypothesis "nothing in flight at the end" is in turn derived from the connection-task contract
+   stated on the service's history (`task_contract`: every OpenSubstream command a task received is
+   later answered or its connection is reported closed): contract_empties_pend,
+   exactly_one_on_service_model_contract.
+
    Not linked here: (d) is the manager's side (C05_sys2_no_silence and its two finding classes; the
    service only forwards DialFailure), (l) is the passing of time. Ids: C13's scripted environment
    draws a substream id for every attempted open (also a failing one) as EOpenFull does; a failing
